@@ -118,6 +118,49 @@ func runC19(c *Ctx) {
 			c.Sites++
 			c.Check(ok, "C19-ORDER", fnName(handle), "suffix-before-"+target.what, handle.Pos(), "behind the '.go' suffix test", "the "+target.what+" is not behind the '.go' suffix test: a file that is not a .go file can be rewritten")
 		}
+		// the text parsed is the file as it is on disk: go/parser reads it itself (src == nil) or is given
+		// exactly what was read — offsets computed on a transformed copy (sanitised, BOM stripped, re-encoded)
+		// are later applied to the raw bytes
+		{
+			var pbad []string
+			np := 0
+			for _, b := range parse.Blocks {
+				for _, ins := range b.Instrs {
+					call, ok := ins.(*ssa.Call)
+					if !ok || calleeName(&call.Call) != "go/parser.ParseFile" || len(call.Call.Args) < 3 {
+						continue
+					}
+					np++
+					src := call.Call.Args[2]
+					if mi, ok := src.(*ssa.MakeInterface); ok {
+						src = mi.X
+					}
+					switch x := src.(type) {
+					case *ssa.Const:
+						if !x.IsNil() {
+							pbad = append(pbad, "the parser is given a constant source")
+						}
+					case *ssa.Extract:
+						rc, ok := x.Tuple.(*ssa.Call)
+						nm := ""
+						if ok {
+							nm = calleeName(&rc.Call)
+						}
+						if nm != "os.ReadFile" && nm != "io/ioutil.ReadFile" && nm != "io.ReadAll" && nm != "io/ioutil.ReadAll" {
+							pbad = append(pbad, "the source handed to the parser is the result of "+nm+", not the file's bytes as read")
+						}
+					default:
+						what := fmt.Sprintf("%T", src)
+						if sc, ok := src.(*ssa.Call); ok {
+							what = "the result of " + calleeName(&sc.Call)
+						}
+						pbad = append(pbad, "the source handed to the parser at "+p.Pos(call.Pos())+" is "+what+", not the file's bytes as read: areas computed on a transformed copy are applied to the raw file")
+					}
+				}
+			}
+			c.Sites++
+			c.Check(len(pbad) == 0 && np > 0, "C19-ORDER", fnName(parse), "parsed-as-read", parse.Pos(), "the parser reads the file itself or is given its bytes as read", strings.Join(uniqStrings(append(pbad, map[bool][]string{true: nil, false: {"no call of go/parser.ParseFile found"}}[np > 0]...)), "; "))
+		}
 		// write after successful parse
 		okW := false
 		wcalls := callsIn(handle, fnName(write))
